@@ -14,12 +14,12 @@ PROPS = {
    assumptions=["Go int arithmetic in encodeGroup/decodeGroup does not overflow (values below 2^10)",
                 "b1t6 decoders are specified only on trits in {-1,0,1} / trytes in [9A-Z] (documented as undefined otherwise)"],
    trusted_base=["iota.go trinary: the four functions b1t6 calls are translated from the pinned module source and tied like the repository's code; nothing of it is merely modelled any more"]),
- "C10": P("C10",
-   rule="ops: path.parse (ParsePath and UnmarshalText must agree), path.print (String, MarshalText, ParsePath of it). Enumerated: ALL strings of "
+ "C10": P("C10", e2e="Iota.Tie.E2E.Bip32Path",
+   rule="ops: path.parse (ParsePath and UnmarshalText must agree), path.print (String, MarshalText, ParsePath of it), each mirrored as gen.path.* and answered by the GENERATED ParsePath / Path.String (the mirror also compares the error kind). Enumerated: ALL strings of "
         "length <= 5 (quick) / 6 (thorough) over the alphabet {0,1,7,9,8,m,/,H,',x}; 2^31 boundary values with 0..20 leading zeros, all markers, "
         "with/without m/; other-base look-alikes; random paths of length 0..40 for the round trip; random mutations of printed paths",
-   assumptions=["regexp leftmost-first semantics of `(\\d+)([H']?)` and strconv.ParseUint(s, 10, 31) modelled by their documented meaning (validated exhaustively on short strings)"],
-   trusted_base=["Go regexp, strconv, strings, fmt modelled, not verified"]),
+   assumptions=["keyReg.FindStringSubmatch returns the leftmost-first match of `(\\d+)([H']?)` (structure Externs, field find_spec) and strconv.ParseUint(ds, 10, 31) on a non-empty digit string returns its decimal value below 2^31 and an error otherwise (field parseUint_digits): the only hypotheses of code_parsePath; validated exhaustively on short strings"],
+   trusted_base=["Go regexp and strconv: parameters of the translated ParsePath, assumed as stated, not verified; strings.TrimPrefix, strings.Split (one-byte separator) and fmt's %d of an unsigned integer: defined in Iota/Model/GoBits.lean (Go.trimPrefix, Go.splitByte, Go.decimal), validated by the gen.path.* ops"]),
  "C15": P("C15", e2e="Iota.Tie.E2E.Merkle",
    rule="ops: merkle.gen (n generated leaves, optional erroring leaf), merkle.hash (explicit leaves incl. empty and erroring ones), merkle.empty. "
         "Every leaf count 0..600 (quick) / 0..4100 (thorough), 2^e-1, 2^e, 2^e+1 for e up to 13 / 17, SHA-256, BLAKE2b-256, SHA-512; an erroring leaf at "
